@@ -24,7 +24,7 @@ ASSUMPTIONS = ["Build-Ids on both sides are computed with the same harness stub 
 
 def plan(tier, seed):
     n = 60 if tier == "quick" else 2000
-    return [{"seed": common.subseed(seed, "c20", i)} for i in range(n)] + [{"seed": seed, "fold": True}]
+    return [{"seed": common.subseed(seed, "c20", i)} for i in range(n)] + [{"seed": seed, "fold": True, "_first": True}]
 
 
 def cycle_prone_model(rnd):
